@@ -70,7 +70,7 @@ class NormalMessage(AbstractMessage):
     @staticmethod
     def calc_natural_parameters(mu, sigma):
         precision = 1 / sigma**2
-        return np.array([mu * precision, -precision / 2])
+        return np.array(np.broadcast_arrays(mu * precision, -precision / 2))
 
     @staticmethod
     def invert_natural_parameters(natural_parameters):
@@ -259,7 +259,7 @@ class NaturalNormal(NormalMessage):
 
     @staticmethod
     def calc_natural_parameters(eta1, eta2):
-        return np.array([eta1, eta2])
+        return np.array(np.broadcast_arrays(eta1, eta2))
 
     @cached_property
     def natural_parameters(self):
